@@ -451,7 +451,16 @@ impl Prop for C08Prop {
         }
         let got = items(&strip_would_block(&after));
         let mut violation = None;
-        if got != exp_full {
+        // noise followed by a cut-off frame is covered by neither clause alone: the property fixes the
+        // total that has to be reported as discarded, not how it is split into reports
+        let combined = seen_cut && expected.len() == 3;
+        let combined_ok = combined && {
+            let total: usize = expected.iter().map(|e| if let Item::Dec(DErr::Discarded(n)) = e { *n } else { 0 }).sum();
+            let k = got.iter().take_while(|i| matches!(i, Item::Dec(DErr::Discarded(_)))).count();
+            let sum: usize = got[..k].iter().map(|i| if let Item::Dec(DErr::Discarded(n)) = i { *n } else { 0 }).sum();
+            k >= 1 && sum == total && got[k..] == exp_full[2..]
+        };
+        if got != exp_full && !combined_ok {
             violation = Some(Violation::oracle(
                 "C08.resync",
                 format!(
